@@ -15,6 +15,7 @@ import (
 	"github.com/gin-gonic/gin"
 
 	"github.com/bluenviron/mediamtx/internal/conf"
+	"github.com/bluenviron/mediamtx/internal/logger"
 	"github.com/bluenviron/mediamtx/internal/recordstore"
 )
 
@@ -58,7 +59,7 @@ func parseSegment(seg *recordstore.Segment) (*parsedSegment, error) {
 	}, nil
 }
 
-func parseSegments(segments []*recordstore.Segment) ([]*parsedSegment, error) {
+func parseSegments(segments []*recordstore.Segment, log logger.Writer) ([]*parsedSegment, error) {
 	parsed := make([]*parsedSegment, len(segments))
 	ch := make(chan error)
 
@@ -82,7 +83,22 @@ func parseSegments(segments []*recordstore.Segment) ([]*parsedSegment, error) {
 		}
 	}
 
-	return parsed, err
+	// a segment that cannot be parsed (for instance because the server
+	// was stopped abruptly while writing it) must not hide the other ones.
+	valid := parsed[:0]
+	for i, p := range parsed {
+		if p != nil {
+			valid = append(valid, p)
+		} else {
+			log.Log(logger.Warn, "skipping segment %s since it cannot be parsed", segments[i].Fpath)
+		}
+	}
+
+	if len(valid) == 0 {
+		return nil, err
+	}
+
+	return valid, nil
 }
 
 func urlScheme(ctx *gin.Context, trustedProxies conf.IPNetworks, encryption bool) string {
@@ -135,9 +151,10 @@ func concatenateSegments(parsed []*parsedSegment) []listEntry {
 func parseAndConcatenate(
 	recordFormat conf.RecordFormat,
 	segments []*recordstore.Segment,
+	log logger.Writer,
 ) ([]listEntry, error) {
 	if recordFormat == conf.RecordFormatFMP4 {
-		parsed, err := parseSegments(segments)
+		parsed, err := parseSegments(segments, log)
 		if err != nil {
 			return nil, err
 		}
@@ -203,7 +220,7 @@ func (s *Server) onList(ctx *gin.Context) {
 		return
 	}
 
-	entries, err := parseAndConcatenate(pathConf.RecordFormat, segments)
+	entries, err := parseAndConcatenate(pathConf.RecordFormat, segments, s)
 	if err != nil {
 		s.writeError(ctx, http.StatusInternalServerError, err)
 		return
